@@ -385,6 +385,8 @@ def features(doc: dict) -> dict:
             f["no_lineno"] += 1
         if kind == "module" and not isinstance(o.get("filepath"), str):
             f["odd_filepath"] += 1
+        if isinstance(o.get("docstring"), dict) and not o["docstring"].get("value"):
+            f["empty_doc"] = f.get("empty_doc", 0) + 1
         for sec in (o.get("docstring") or {}).get("parsed", []) or []:
             if isinstance(sec, dict):
                 f["sections"].add(sec.get("kind"))
@@ -584,6 +586,8 @@ def _check_pkg(case, observe=None) -> list[Fail]:
                 return []
             if case.get("cwd") == "inside":
                 os.chdir(info["search_paths"][0])
+            elif case.get("cwd") == "root":
+                os.chdir(root)  # an ancestor of every search path: relative_filepath of namespace packages depends on their order
             fails, dumps = roundtrip(module, str(root), case.get("parser"), steer=case.get("steer", ()))
             if observe is not None:
                 observe["dumps"] = dumps
@@ -775,7 +779,7 @@ def _pkg_cases(ctx):
             "agent": st.just("static"),
             "resolve": st.sampled_from((0, 1, 2)),
             "parser": st.sampled_from(PARSERS),
-            "cwd": st.sampled_from(("outside", "outside", "inside")),
+            "cwd": st.sampled_from(("outside", "inside", "root")),
             "steer": st.just(steer),
         },
     )
@@ -786,7 +790,7 @@ def _pkg_cases(ctx):
             "agent": st.just("dynamic"),
             "resolve": st.sampled_from((0, 1, 2)),
             "parser": st.sampled_from(PARSERS),
-            "cwd": st.sampled_from(("outside", "outside", "inside")),
+            "cwd": st.sampled_from(("outside", "inside", "root")),
             "steer": st.just(steer),
         },
     )
@@ -941,6 +945,8 @@ def describe_with(observed: dict, case):
         classes += [f"agent:{case.get('agent', 'builtin')}", f"resolve:{case.get('resolve')}", f"parser:{case.get('parser')}"]
         if case["kind"] == "pkg":
             classes += [f"layout:{case['pkg']['layout']}", f"cwd:{case.get('cwd')}"]
+            if case["pkg"]["layout"] == "namespace":
+                classes.append(f"search-paths:{'swapped' if case['pkg'].get('swap') else 'alphabetical'}")
         for form in ("min", "full"):
             if dumps.get(form) is None:
                 classes.append(f"dump-failed:{form}")
@@ -969,6 +975,8 @@ def describe_with(observed: dict, case):
         classes.append("has:list-or-null-filepath")
     if f["param_doc"]:
         classes.append("has:parameter-docstring")
+    if f.get("empty_doc"):
+        classes.append("has:empty-docstring")
     if f["aliases"] and (f["depth"] >= 2 or f["no_lineno"] or f["odd_filepath"]):
         norm = _normalise(src, observed.get("root"))
         key = digest([norm, case["kind"], case.get("agent"), case.get("resolve"), case.get("parser"), case.get("cwd"), case.get("full"), case.get("out")])
